@@ -1,6 +1,8 @@
 package main
 
 import (
+	"encoding/json"
+	"sort"
 	"fmt"
 
 	"github.com/advancedclimatesystems/gonnx"
@@ -389,6 +391,18 @@ func genDAG(e *emitter, maxNodes int) (*GraphJ, []NamedT) {
 }
 
 func genC01(e *emitter, tier string) {
+	siblingNodes(e)
+	// a graph input that declares NO shape (unknown rank) given one-element tensors of rank 0..4 and larger
+	// tensors: the tensor reaches the nodes as the caller made it (rank included)
+	for _, how := range []string{"", "shape", "dims"} {
+		g := &GraphJ{Inputs: []VInfoJ{{Name: "x", Dt: "f32", NoShape: true, How: how}},
+			Inits: []InitJ{{Name: "w", T: smallT("f32", []int{2, 3}, 4)}, {Name: "v", T: smallT("f32", []int{3}, 2)}},
+			Nodes: []NodeJ{{Op: "Add", Ins: []string{"x", "w"}, Outs: []string{"y"}}, {Op: "Mul", Ins: []string{"v", "x"}, Outs: []string{"z"}}, {Op: "Shape", Ins: []string{"x"}, Outs: []string{"s"}}},
+			Outputs: []string{"y", "z", "s"}}
+		for _, sh := range [][]int{{}, {1}, {1, 1}, {1, 1, 1}, {1, 1, 1, 1}, {3}, {1, 3}, {2, 1}, {1, 2, 3}} {
+			e.emit(graphCase("unshaped-input", g, []NamedT{{"x", smallT("f32", sh, 3)}}))
+		}
+	}
 	n := 300
 	maxNodes := 8
 	if tier == "thorough" {
@@ -469,4 +483,110 @@ func genC01(e *emitter, tier string) {
 		Inits: []InitJ{{Name: "w", T: vals("f32", []int{2}, 10, 20)}}, Nodes: []NodeJ{{Op: "Add", Ins: []string{"x", "w"}, Outs: []string{"y"}}}, Outputs: []string{"y"}}
 	e.emit(graphCase("init-as-input", gI, []NamedT{{"x", vals("f32", []int{2}, 1, 2)}}))
 	e.emit(graphCase("init-as-input", gI, []NamedT{{"x", vals("f32", []int{2}, 1, 2)}, {"w", vals("f32", []int{2}, 5, 6)}}))
+}
+
+// siblingNodes: for every operator with attributes, a graph in which TWO nodes of that operator read the same
+// tensors and differ in exactly one attribute (each attribute in turn, whatever its type: int, float, string,
+// int list, FLOAT LIST, tensor); only variations that the operator accepts and that change its answer are kept.
+// Whatever Run shares between "equal" nodes must look at every attribute.
+func siblingNodes(e *emitter) {
+	names := make([]string, 0, len(exampleCases))
+	for n := range exampleCases {
+		names = append(names, n)
+	}
+	sort.Strings(names)
+	bump := func(a Attr) (Attr, bool) {
+		b := a
+		switch a.Type {
+		case "i":
+			b.I = a.I + 1
+		case "f":
+			b.F = a.F + 1
+		case "ints":
+			b.Ints = append([]int64{}, a.Ints...)
+			if len(b.Ints) == 0 {
+				return b, false
+			}
+			b.Ints[len(b.Ints)-1]++
+		case "floats":
+			b.Fs = append([]float64{}, a.Fs...)
+			if len(b.Fs) == 0 {
+				return b, false
+			}
+			b.Fs[0] += 2
+		case "strings":
+			b.Ss = append([]string{}, a.Ss...)
+			if len(b.Ss) == 0 {
+				return b, false
+			}
+			if b.Ss[0] == "relu" {
+				b.Ss[0] = "tanh"
+			} else {
+				b.Ss[0] = "relu"
+			}
+		case "t":
+			if a.T == nil || len(a.T.Data) == 0 {
+				return b, false
+			}
+			t := *a.T
+			t.Data = append([]any{}, a.T.Data...)
+			t.Data[0] = toF(t.Data[0]) + 1
+			b.T = &t
+		default:
+			return b, false
+		}
+		return b, true
+	}
+	for _, op := range names {
+		ex := exampleCases[op]
+		if len(ex.Attrs) == 0 || len(ex.Inputs) == 0 {
+			continue
+		}
+		base := runOp(op, ex.Attrs, ex.Inputs, ex.Outputs)
+		if base.Status != "ok" {
+			continue
+		}
+		for k := range ex.Attrs {
+			alt, ok := bump(ex.Attrs[k])
+			if !ok {
+				continue
+			}
+			attrs2 := append([]Attr{}, ex.Attrs...)
+			attrs2[k] = alt
+			r2 := runOp(op, attrs2, ex.Inputs, ex.Outputs)
+			b1, _ := json.Marshal(base.Outs)
+			b2, _ := json.Marshal(r2.Outs)
+			if r2.Status != "ok" || string(b1) == string(b2) {
+				continue
+			}
+			g := &GraphJ{}
+			var ins []string
+			var feed []NamedT
+			for i, t := range ex.Inputs {
+				if t == nil {
+					ins = append(ins, "")
+					continue
+				}
+				nm := fmt.Sprintf("in%d", i)
+				ins = append(ins, nm)
+				g.Inputs = append(g.Inputs, VInfoJ{Name: nm, Dt: t.Dt, Dims: toAny(t.Shape)})
+				feed = append(feed, NamedT{nm, t})
+			}
+			nOut := len(ex.Outputs)
+			if nOut == 0 {
+				nOut = 1
+			}
+			outsA, outsB := make([]string, nOut), make([]string, nOut)
+			for i := range outsA {
+				outsA[i], outsB[i] = fmt.Sprintf("a%d", i), fmt.Sprintf("b%d", i)
+			}
+			for _, order := range [][2]int{{0, 1}, {1, 0}} {
+				pair := []NodeJ{{Op: op, Attrs: ex.Attrs, Ins: ins, Outs: outsA}, {Op: op, Attrs: attrs2, Ins: ins, Outs: outsB}}
+				gg := *g
+				gg.Nodes = []NodeJ{pair[order[0]], pair[order[1]]}
+				gg.Outputs = append(append([]string{}, outsA...), outsB...)
+				e.emit(graphCase("sibling-nodes:"+op+"."+ex.Attrs[k].Name, &gg, feed))
+			}
+		}
+	}
 }
